@@ -22,8 +22,11 @@ import (
 	"sync"
 	"time"
 
+	chproto "github.com/ClickHouse/ch-go/proto"
 	rsvc "github.com/metrico/qryn/reader/service"
 	wmodel "github.com/metrico/qryn/writer/model"
+	wsvc "github.com/metrico/qryn/writer/service"
+	"github.com/metrico/qryn/writer/service/impl"
 	"github.com/metrico/qryn/writer/utils/unmarshal"
 	common "go.opentelemetry.io/proto/otlp/common/v1"
 	resource "go.opentelemetry.io/proto/otlp/resource/v1"
@@ -106,7 +109,7 @@ type ARow struct {
 	Sid  string `json:"sid"`
 	Ts   int64  `json:"ts"`
 	Dur  int64  `json:"dur"`
-	Date int64  `json:"date"` // MDate.Unix()
+	Date int64  `json:"date"` // the Date column: days since 1970-01-01 (UInt16)
 }
 type RSpan struct {
 	Ok    bool   `json:"ok"` // the reader produced a span for this row
@@ -128,14 +131,15 @@ type Case struct {
 	Otlp  []ORes `json:"otlp"`
 	Zip   []JV   `json:"zip"`
 	// rendering knobs (do not reach the model; the model is insensitive to them)
-	Sep     int     `json:"sep"`      // whitespace variant between elements
-	TrailNL bool    `json:"trail_nl"` // NDJSON: final newline
-	Err     bool    `json:"err"`
-	ErrMsg  string  `json:"errmsg"`
-	Spans   []TRow  `json:"spans"`
-	Tags    []ARow  `json:"tags"`
-	Read    []RSpan `json:"read"`
-	ReadAll int     `json:"read_all"` // spans returned by ONE OutputQuery over all rows in order
+	Sep       int     `json:"sep"`      // whitespace variant between elements
+	TrailNL   bool    `json:"trail_nl"` // NDJSON: final newline
+	Err       bool    `json:"err"`
+	ErrMsg    string  `json:"errmsg"`
+	Spans     []TRow  `json:"spans"`
+	Tags      []ARow  `json:"tags"`
+	Read      []RSpan `json:"read"`
+	ReadAll   int     `json:"read_all"`  // spans returned by ONE OutputQuery over all rows in order
+	Responses int     `json:"responses"` // parser responses carrying rows (> 1 = mid-request flush)
 }
 
 // ---------------------------------------------------------------- conversions abstract <-> protobuf
@@ -440,6 +444,63 @@ func collect(ch chan *wmodel.ParserResponse) (err error, spans []*wmodel.TempoSa
 	return
 }
 
+// ---- the rows as the insert services hand them to ClickHouse: the parser's TempoSamples / TempoTag go through the
+// real AcquireColumns + ProcessRequest of impl.NewTempoSamplesInsertService / NewTempoTagsInsertService and are read
+// back from the ch-go columns BY COLUMN NAME (the name is what the INSERT block carries).
+var (
+	samplesSvc *wsvc.InsertServiceV2Multimodal
+	tagsSvc    *wsvc.InsertServiceV2Multimodal
+)
+
+type colset map[string]chproto.ColInput
+
+func toCols(svc *wsvc.InsertServiceV2Multimodal, req any) (colset, int, string) {
+	var cs colset
+	var n int
+	p := hx.Catch(func() {
+		cols := svc.AcquireColumns()
+		var err error
+		n, cols, err = svc.ProcessRequest(req, cols)
+		if err != nil {
+			panic(err)
+		}
+		cs = colset{}
+		for _, c := range cols {
+			in := c.Input()
+			cs[in.Name] = in.Data
+		}
+	})
+	return cs, n, p
+}
+
+func (cs colset) str(name string, i int) string {
+	switch c := cs[name].(type) {
+	case *chproto.ColStr:
+		return c.Row(i)
+	case *chproto.ColFixedStr:
+		return string(c.Row(i))
+	}
+	panic("column " + name + " is not a string column")
+}
+
+func (cs colset) i64(name string, i int) int64 {
+	switch c := cs[name].(type) {
+	case chproto.ColInt64:
+		return c[i]
+	case *chproto.ColInt64:
+		return (*c)[i]
+	case chproto.ColInt8:
+		return int64(c[i])
+	case *chproto.ColInt8:
+		return int64((*c)[i])
+	case chproto.ColDate:
+		return int64(c[i])
+	case *chproto.ColDate:
+		return int64((*c)[i])
+	}
+	panic(fmt.Sprintf("column %s is not an integer column: %T", name, cs[name]))
+}
+
 func run(c *Case, silence bool) {
 	var body []byte
 	var texts []string
@@ -459,6 +520,7 @@ func run(c *Case, silence bool) {
 	}
 	c.Err, c.ErrMsg, c.Spans, c.Tags, c.Read, c.ReadAll = false, "", []TRow{}, []ARow{}, []RSpan{}, 0
 	err, spans, tags := collect(parser(context.Background(), bytes.NewReader(body), nil))
+	c.Responses = len(spans)
 	if err != nil {
 		c.Err, c.ErrMsg = true, err.Error()
 		if len(c.ErrMsg) > 200 {
@@ -467,10 +529,17 @@ func run(c *Case, silence bool) {
 	}
 	var dbrows [][]driver.Value
 	for _, s := range spans {
-		for i := range s.MTraceId {
-			row := TRow{Tid: hex.EncodeToString(s.MTraceId[i]), Sid: hex.EncodeToString(s.MSpanId[i]), Pid: hex.EncodeToString([]byte(s.MParentId[i])),
-				Name: s.MName[i], Ts: s.MTimestampNs[i], Dur: s.MDurationNs[i], Svc: s.MServiceName[i], PType: int(s.MPayloadType[i])}
-			p := s.MPayload[i]
+		cs, n, p := toCols(samplesSvc, s)
+		if p != "" || n != len(s.MTraceId) {
+			c.Err, c.ErrMsg = true, fmt.Sprintf("insert service: %d rows for %d spans %s", n, len(s.MTraceId), p)
+			continue
+		}
+		for i := 0; i < n; i++ {
+			pl := cs.str("payload", i)
+			row := TRow{Tid: hx.Hex(cs.str("trace_id", i)), Sid: hx.Hex(cs.str("span_id", i)), Pid: hx.Hex(cs.str("parent_id", i)),
+				Name: cs.str("name", i), Ts: cs.i64("timestamp_ns", i), Dur: cs.i64("duration_ns", i), Svc: cs.str("service_name", i),
+				PType: int(cs.i64("payload_type", i))}
+			p := []byte(pl)
 			idx := len(c.Spans)
 			switch {
 			case len(p) == 0:
@@ -498,14 +567,19 @@ func run(c *Case, silence bool) {
 				}
 			}
 			c.Spans = append(c.Spans, row)
-			dbrows = append(dbrows, []driver.Value{string(s.MTraceId[i]), string(s.MSpanId[i]), s.MParentId[i],
-				s.MTimestampNs[i], s.MDurationNs[i], int64(s.MPayloadType[i]), string(p)})
+			dbrows = append(dbrows, []driver.Value{cs.str("trace_id", i), cs.str("span_id", i), cs.str("parent_id", i),
+				row.Ts, row.Dur, int64(row.PType), pl})
 		}
 	}
 	for _, t := range tags {
-		for i := range t.MKey {
-			c.Tags = append(c.Tags, ARow{K: t.MKey[i], V: t.MVal[i], Tid: hex.EncodeToString(t.MTraceId[i]), Sid: hex.EncodeToString(t.MSpanId[i]),
-				Ts: t.MTimestampNs[i], Dur: t.MDurationNs[i], Date: t.MDate[i].Unix()})
+		cs, n, p := toCols(tagsSvc, t)
+		if p != "" || n != len(t.MKey) {
+			c.Err, c.ErrMsg = true, fmt.Sprintf("tags insert service: %d rows for %d tags %s", n, len(t.MKey), p)
+			continue
+		}
+		for i := 0; i < n; i++ {
+			c.Tags = append(c.Tags, ARow{K: cs.str("key", i), V: cs.str("val", i), Tid: hx.Hex(cs.str("trace_id", i)), Sid: hx.Hex(cs.str("span_id", i)),
+				Ts: cs.i64("timestamp_ns", i), Dur: cs.i64("duration", i), Date: cs.i64("date", i)})
 		}
 	}
 	// read path: every stored row alone (so that one undecodable row does not hide the others) ...
@@ -983,8 +1057,27 @@ func genZipkin(r *rand.Rand, c *Case) {
 	c.TrailNL = r.Intn(2) == 0
 }
 
+// one request above the 1 MiB threshold of onSpan: the parser answers with several responses (mid-request flush);
+// all spans share one 30 kB attribute value so that the case file stays small
+func genBig(r *rand.Rand, c *Case) {
+	c.Fmt, c.Class = "otlp", "otlp-big-flush"
+	blob := strings.Repeat("x", 30000)
+	res := ORes{HasRes: true, Attrs: []KV{{K: "service.name", V: AVal{T: "s", S: "bulk"}}}, Scopes: [][]OSpan{{}}}
+	n := 40 + r.Intn(10)
+	for i := 0; i < n; i++ {
+		sp := OSpan{Tid: genID(r, 16), Sid: genID(r, 8), Name: "op" + strconv.Itoa(i), Kind: 1,
+			Start: nowNs + uint64(i), End: nowNs + uint64(i) + 1000, Attrs: []KV{{K: "blob", V: AVal{T: "s", S: blob}}, {K: "i", V: AVal{T: "i", I: int64(i)}}}}
+		res.Scopes[0] = append(res.Scopes[0], sp)
+	}
+	c.Otlp = []ORes{res}
+}
+
 func gen(r *rand.Rand, id int, depth int) Case {
 	c := Case{ID: id, Otlp: []ORes{}, Zip: []JV{}}
+	if id == 7 {
+		genBig(r, &c)
+		return c
+	}
 	if r.Intn(2) == 0 {
 		genOtlp(r, &c, depth)
 	} else {
@@ -1001,6 +1094,10 @@ func main() {
 	if err != nil {
 		panic(err)
 	}
+	wsvc.CreateColPools(8)
+	node := &wmodel.DataDatabasesMap{}
+	samplesSvc = impl.NewTempoSamplesInsertService(wmodel.InsertServiceOpts{Node: node}).(*wsvc.InsertServiceV2Multimodal)
+	tagsSvc = impl.NewTempoTagsInsertService(wmodel.InsertServiceOpts{Node: node}).(*wsvc.InsertServiceV2Multimodal)
 	fl := hx.ParseFlags()
 	out := hx.OpenOut(fl.Out)
 	defer out.Close()
